@@ -2,6 +2,7 @@ package main
 
 import (
 	"bufio"
+	"os"
 	"fmt"
 	"io"
 	"math"
@@ -21,6 +22,8 @@ type SolverStats struct {
 	MaxS     float64
 	Skipped  int // answered by model evaluation / constant folding
 	Restarts int
+	HardTimeouts int
+	OneShot int
 }
 
 type Solver struct {
@@ -28,6 +31,7 @@ type Solver struct {
 	cmd      *exec.Cmd
 	in       io.WriteCloser
 	out      *bufio.Reader
+	lines    chan string
 	tt       *TermTable
 	declared map[string]bool
 	depth    int
@@ -78,6 +82,24 @@ func (s *Solver) start() error {
 	s.in = in
 	s.out = bufio.NewReaderSize(out, 1<<20)
 	s.dead = false
+	ch := make(chan string, 1024)
+	s.lines = ch
+	go func(r *bufio.Reader) {
+		for {
+			l, err := r.ReadString('\n')
+			if l != "" {
+				ch <- l
+			}
+			if err != nil {
+				close(ch)
+				return
+			}
+		}
+	}(s.out)
+	if f := os.Getenv("GOSYM_SMTLOG"); f != "" && s.log == nil {
+		lf, _ := os.OpenFile(fmt.Sprintf("%s.%d", f, os.Getpid()), os.O_CREATE|os.O_WRONLY|os.O_APPEND, 0o644)
+		s.log = lf
+	}
 	s.send("(set-option :produce-models true)")
 	s.send("(set-option :global-declarations true)")
 	if s.name == "cvc5" {
@@ -103,10 +125,26 @@ func (s *Solver) send(line string) {
 	}
 }
 
-func (s *Solver) readLine() string {
-	l, err := s.out.ReadString('\n')
-	if err != nil {
+// readRaw returns the next output line, or ok=false when the solver died or the hard deadline
+// (solver timeout + 10 s) passed - some z3 tactics do not honour -t.
+func (s *Solver) readRaw() (string, bool) {
+	select {
+	case l, ok := <-s.lines:
+		if !ok {
+			s.dead = true
+			return "", false
+		}
+		return l, true
+	case <-time.After(time.Duration(s.timeoutMs)*time.Millisecond + 5*time.Second):
 		s.dead = true
+		s.Stats.HardTimeouts++
+		return "", false
+	}
+}
+
+func (s *Solver) readLine() string {
+	l, ok := s.readRaw()
+	if !ok {
 		return "(error \"solver died\")"
 	}
 	return strings.TrimSpace(l)
@@ -232,6 +270,89 @@ func (s *Solver) CheckSat() SatResult {
 	return res
 }
 
+// CheckOneShot solves (all asserted frames ∧ extra) in a fresh, non-incremental solver process:
+// z3's tactic pipeline (bit-blasting to SAT) is used only without push/pop and is far faster on
+// bit-vector/floating-point queries than the incremental core.
+func (s *Solver) CheckOneShot(extra *Term, vars []*Term, timeoutMs int) (SatResult, Model) {
+	s.declareVars(extra)
+	var sb strings.Builder
+	sb.WriteString("(set-option :produce-models true)\n")
+	for _, fr := range s.frames {
+		for _, l := range fr {
+			sb.WriteString(l)
+			sb.WriteByte('\n')
+		}
+	}
+	sb.WriteString("(assert " + s.tt.SMT(extra) + ")\n(check-sat)\n")
+	var ask []*Term
+	for _, v := range vars {
+		if s.declared[v.Name] {
+			ask = append(ask, v)
+		}
+	}
+	getv := ""
+	if len(ask) > 0 {
+		var g strings.Builder
+		g.WriteString("(get-value (")
+		for _, v := range ask {
+			g.WriteString("|" + v.Name + "| ")
+		}
+		g.WriteString("))\n")
+		getv = g.String()
+	}
+	try := func(bin string, args []string, script string) (SatResult, string) {
+		t0 := time.Now()
+		cmd := exec.Command(bin, args...)
+		cmd.Stdin = strings.NewReader(script)
+		done := make(chan struct{})
+		var out []byte
+		go func() { out, _ = cmd.Output(); close(done) }()
+		select {
+		case <-done:
+		case <-time.After(time.Duration(timeoutMs)*time.Millisecond + 5*time.Second):
+			if cmd.Process != nil {
+				cmd.Process.Kill()
+			}
+			<-done
+		}
+		d := time.Since(t0).Seconds()
+		s.Stats.Queries++
+		s.Stats.OneShot++
+		s.Stats.WallS += d
+		if d > s.Stats.MaxS {
+			s.Stats.MaxS = d
+		}
+		text := string(out)
+		first := strings.TrimSpace(strings.SplitN(text, "\n", 2)[0])
+		switch first {
+		case "sat":
+			s.Stats.Sat++
+			return Sat, text
+		case "unsat":
+			s.Stats.Unsat++
+			return Unsat, text
+		}
+		s.Stats.Unknown++
+		return Unknown, text
+	}
+	script := sb.String()
+	r, text := try("z3", []string{"-in", fmt.Sprintf("-t:%d", timeoutMs)}, script+getv)
+	if r == Unknown {
+		r, text = try("cvc5", []string{"--lang=smt2", "--produce-models", fmt.Sprintf("--tlimit=%d", timeoutMs)}, "(set-logic ALL)\n"+script+getv)
+		if r != Unknown {
+			s.Stats.Unknown-- // resolved by the second back end
+		}
+	}
+	if r != Sat {
+		return r, nil
+	}
+	m := Model{}
+	if i := strings.Index(text, "\n"); i >= 0 && len(ask) > 0 {
+		s.parseValues(text[i+1:], ask, m)
+	}
+	return r, m
+}
+
 // CheckWith: push, assert extra, check, pop.
 func (s *Solver) CheckWith(extra ...*Term) SatResult {
 	s.Push()
@@ -250,27 +371,29 @@ func (s *Solver) readSexp() string {
 	started := false
 	inBar := false
 	for {
-		c, err := s.out.ReadByte()
-		if err != nil {
-			s.dead = true
+		l, ok := s.readRaw()
+		if !ok {
 			return sb.String()
 		}
-		sb.WriteByte(c)
-		if c == '|' {
-			inBar = !inBar
-			continue
-		}
-		if inBar {
-			continue
-		}
-		if c == '(' {
-			depth++
-			started = true
-		} else if c == ')' {
-			depth--
-			if started && depth == 0 {
-				return sb.String()
+		sb.WriteString(l)
+		for i := 0; i < len(l); i++ {
+			c := l[i]
+			if c == '|' {
+				inBar = !inBar
+				continue
 			}
+			if inBar {
+				continue
+			}
+			if c == '(' {
+				depth++
+				started = true
+			} else if c == ')' {
+				depth--
+			}
+		}
+		if started && depth <= 0 {
+			return sb.String()
 		}
 	}
 }
